@@ -408,6 +408,12 @@ class Array(AbstractValueWithQuantityObject, Generic[ValuesType]):
             values_iteration = _ValueGenerator(p1.values, p2.values)
             q1 = p1.GetQuantity()
             q2 = p2.GetQuantity()
+            if values_iteration.IsNumpy() and numpy.shape(p1.values) != numpy.shape(p2.values):
+                # numpy would silently repeat a single element (or a row) to fit the other operand
+                raise ValueError(
+                    "Operands must have the same length: %s != %s"
+                    % (numpy.shape(p1.values), numpy.shape(p2.values))
+                )
 
         unit_database = self.GetUnitDatabase()
         operation_func = getattr(unit_database, operation)
